@@ -18,6 +18,31 @@ from ..common import Verdict, workdir, run_harness, log, die_tool
 PROP = "C14"
 
 
+
+def failing_rewinds():
+    """A rewind that fails half-way (FailedRewindNoop): the checkpoint covers two files, the first-listed one has been deleted
+    since, and restoring the second one cannot succeed - its directory has become a plain file, or its stored copy is gone.
+    The workspace must be exactly as it was before the rewind (the deleted file stays deleted)."""
+    out = []
+    fs0 = {"f": "v1", "g": "v1", "d/h": "v1"}
+
+    def case(paths, deleted, sabotage, fs_after_sabotage):
+        steps = []
+        fs = dict(fs0)
+        steps.append({"o": {"k": "create", "how": "rel", "paths": paths}, "ok": True, "fs": dict(fs), "ncp": 1})
+        fs[deleted] = "absent"
+        steps.append({"o": {"k": "raw_delete", "p": deleted}, "ok": True, "fs": dict(fs), "ncp": 1})
+        fs.update(fs_after_sabotage)
+        steps.append({"o": sabotage, "ok": True, "fs": dict(fs), "ncp": 1})
+        steps.append({"o": {"k": "rewind", "i": 1}, "ok": False, "fs": dict(fs), "ncp": 1})
+        return {"fs0": dict(fs0), "steps": steps}
+    for paths, deleted, other in ((["f", "d/h"], "f", "d/h"), (["g", "d/h"], "g", "d/h"), (["f", "g"], "f", "g"), (["g", "f"], "g", "f"), (["d/h", "f"], "d/h", "f")):
+        out.append(case(paths, deleted, {"k": "sabotage_store", "i": 1, "p": other}, {}))
+        if other == "d/h":
+            out.append(case(paths, deleted, {"k": "raw_dir_to_file", "p": "d"}, {"d/h": "absent"}))
+    return out
+
+
 def run(tier, seed):
     v = Verdict(PROP, tier, seed)
     wd = workdir(PROP)
@@ -44,7 +69,7 @@ def run(tier, seed):
             elif cwd == "elsewhere" and not thorough:
                 sel = sel[::4]
             if mode == "direct" and cwd == "root":
-                sel = sel + deep
+                sel = sel + deep + failing_rewinds()
             cases = [{"id": f"{cwd}-{mode}-{i}", "fs0": c["fs0"], "steps": [{"o": s["o"]} for s in c["steps"]], "cwd": cwd, "mode": mode, "_steps": c["steps"]}
                      for i, c in enumerate(sel)]
             results = run_harness("ckpt", [{k: c[k] for k in c if not k.startswith("_")} for c in cases], wd, f"ck-{cwd}-{mode}", shards=14, timeout=3000)
